@@ -11,31 +11,40 @@ type VerifStats struct {
 	Added      int
 	Fetching   int
 	Fetched    int
+	Busy       int
 }
 
-// VerifStats returns the current queue, task and buffer counts.
+// VerifStats returns the current queue, task and buffer counts. It never
+// waits for the replicator's locks (an observer must not hang on a lock the
+// observed code holds for ever): a figure that could not be read is -1 and
+// Busy counts the locks that were taken.
 func (r *replicator) VerifStats() VerifStats {
-	r.muProcess.RLock()
-	defer r.muProcess.RUnlock()
+	s := VerifStats{Queued: -1, InProgress: -1, Buffered: -1}
 
-	s := VerifStats{
-		Queued:     r.queue.Len(),
-		InProgress: int(r.taskInProgress),
-	}
-	for _, st := range r.tasks {
-		switch st {
-		case stateAdded:
-			s.Added++
-		case stateFetching:
-			s.Fetching++
-		case stateFetched:
-			s.Fetched++
+	if r.muProcess.TryRLock() {
+		s.Queued = r.queue.Len()
+		s.InProgress = int(r.taskInProgress)
+		for _, st := range r.tasks {
+			switch st {
+			case stateAdded:
+				s.Added++
+			case stateFetching:
+				s.Fetching++
+			case stateFetched:
+				s.Fetched++
+			}
 		}
+		r.muProcess.RUnlock()
+	} else {
+		s.Busy++
 	}
 
-	r.muBuffer.Lock()
-	s.Buffered = len(r.buffer)
-	r.muBuffer.Unlock()
+	if r.muBuffer.TryLock() {
+		s.Buffered = len(r.buffer)
+		r.muBuffer.Unlock()
+	} else {
+		s.Busy++
+	}
 
 	return s
 }
